@@ -103,6 +103,22 @@ fn main() {
             };
             std::process::exit(code);
         }
+        "gen" => {
+            // print the i-th scenario of a named structured generator as a replay file (debugging aid)
+            use proptest::strategy::{Strategy, ValueTree};
+            let mut runner = proptest::test_runner::TestRunner::deterministic();
+            let strat = match args[2].as_str() {
+                "after_failed" => props::worldprops::after_failed_attempts_strategy(),
+                "overlap" => props::worldprops::overlap_strategy(),
+                _ => usage(),
+            };
+            let n: usize = args.get(3).and_then(|x| x.parse().ok()).unwrap_or(0);
+            let mut scn = strat.new_tree(&mut runner).unwrap().current();
+            for _ in 0..n {
+                scn = strat.new_tree(&mut runner).unwrap().current();
+            }
+            println!("{}", serde_json::json!({"property": args.get(4).cloned().unwrap_or("C11".into()), "engine": "world", "case": scn}));
+        }
         "smoke" => {
             // generate N scenarios with the default profile, print the last trace and all violations
             use proptest::strategy::{Strategy, ValueTree};
